@@ -3,6 +3,7 @@ package props
 import (
 	"os"
 	"sort"
+	"strings"
 	"testing"
 )
 
@@ -25,4 +26,21 @@ func seqInts(n int) []int {
 		out[i] = i
 	}
 	return out
+}
+
+// trimStack keeps the frames of a stack trace that mention the library.
+func trimStack(st []byte) string {
+	var out []string
+	lines := strings.Split(string(st), "\n")
+	for i := 0; i+1 < len(lines); i++ {
+		if strings.Contains(lines[i], "biscuit-go") || strings.Contains(lines[i+1], "/repo/") || strings.Contains(lines[i+1], "/tmp/mut") {
+			if !strings.HasPrefix(lines[i], "\t") {
+				out = append(out, strings.TrimSpace(lines[i])+" @ "+strings.TrimSpace(lines[i+1]))
+			}
+		}
+		if len(out) >= 8 {
+			break
+		}
+	}
+	return strings.Join(out, "\n")
 }
